@@ -70,10 +70,10 @@ fn extreme_args() -> (u64, u64, u64) {
 
 //@ id: c04_hypergeometric_small
 //@ prop: C04
-//@ tier: quick
+//@ tier: thorough
 //@ cap: 900
 //@ funcs: Hypergeometric::new
-//@ bounds: N < 4096, every K and n in u64: Ok/Err judgement and absence of panics
+//@ bounds: N < 1024, every K and n in u64: Ok/Err judgement and absence of panics
 //@ assumes: fraction_of_products_of_factorials, ln_of_factorial = arbitrary f64 (over-approximation; their loops are unbounded); f64::ln, exp, sqrt by contract
 vproof! {
     #[kani::stub(fraction_of_products_of_factorials, stub_fpf)]
@@ -82,7 +82,7 @@ vproof! {
         let nn: u64 = kani::any();
         let kk: u64 = kani::any();
         let n: u64 = kani::any();
-        kani::assume(nn < 4096);
+        kani::assume(nn < 1024);
         hyper_new_check(nn, kk, n, false);
         kani::cover!(kk <= nn && n <= nn, "valid");
         kani::cover!(kk > nn, "ProbabilityTooLarge");
@@ -130,10 +130,10 @@ vproof! {
 
 //@ id: c02_hypergeometric_reductions_small
 //@ prop: C02
-//@ tier: quick
+//@ tier: thorough
 //@ cap: 900
 //@ funcs: Hypergeometric::new (symmetry reductions K <-> N-K, n <-> N-n; offset_x, sign_x, n1, n2, k)
-//@ bounds: every (N, K, n) with K, n <= N < 4096
+//@ bounds: every (N, K, n) with K, n <= N < 1024
 //@ assumes: fraction_of_products_of_factorials, ln_of_factorial = arbitrary f64 (over-approximation); f64::ln, exp, sqrt by contract
 vproof! {
     #[kani::stub(fraction_of_products_of_factorials, stub_fpf)]
@@ -142,7 +142,7 @@ vproof! {
         let nn: u64 = kani::any();
         let kk: u64 = kani::any();
         let n: u64 = kani::any();
-        kani::assume(nn < 4096 && kk <= nn && n <= nn);
+        kani::assume(nn < 1024 && kk <= nn && n <= nn);
         hyper_new_check(nn, kk, n, true);
         kani::cover!(kk > nn - kk && n > nn / 2, "both reductions");
         kani::cover!(kk <= nn - kk && n <= nn / 2, "no reduction");
@@ -198,4 +198,22 @@ fn c03_hypergeometric_hin() {
     vassert!(rng.pos == 1, "Hypergeometric(HIN) consumes exactly one word");
     kani::cover!(kk > nn - kk && n > nn / 2 && x > 0, "both reductions, positive sample");
     kani::cover!(x == hi && hi > 0, "upper end of the support");
+}
+
+//@ id: c02_hypergeometric_reductions_extreme
+//@ prop: C02
+//@ tier: quick
+//@ cap: 900
+//@ funcs: Hypergeometric::new (symmetry reductions K <-> N-K, n <-> N-n; offset_x, sign_x, n1, n2, k)
+//@ bounds: N in {u64::MAX-d, 2^63+d, 2^63-1-d, 2^32+d}, K in {a, N-a}, n in {b, N-b}, d,a,b < 16 (all four reduction combinations at the integer extremes); N < 1024 and all of u64: thorough tier
+//@ assumes: fraction_of_products_of_factorials, ln_of_factorial = arbitrary f64 (over-approximation); f64::ln, exp, sqrt by contract
+vproof! {
+    #[kani::stub(fraction_of_products_of_factorials, stub_fpf)]
+    #[kani::stub(ln_of_factorial, stub_lnfac)]
+    fn c02_hypergeometric_reductions_extreme() {
+        let (nn, kk, n) = extreme_args();
+        hyper_new_check(nn, kk, n, true);
+        kani::cover!(kk > nn - kk && n > nn / 2, "both reductions");
+        kani::cover!(kk <= nn - kk && n <= nn / 2, "no reduction");
+    }
 }
